@@ -66,7 +66,9 @@ impl Watch {
     }
 }
 
-pub const WATCHDOG_SECS: u64 = 120;
+pub const WATCHDOG_SECS: u64 = 20;
+/// corpus plans run thousands of executions each
+pub const WATCHDOG_SECS_CORPUS: u64 = 600;
 
 fn spawn_watchdog(watch: Arc<Watch>, prop: &'static str, replay_dir: String) {
     std::thread::spawn(move || loop {
@@ -74,18 +76,19 @@ fn spawn_watchdog(watch: Arc<Watch>, prop: &'static str, replay_dir: String) {
         for slot in &watch.slots {
             let s = slot.lock().unwrap();
             if let (Some(t), Some(p)) = (s.started, &s.plan) {
-                if t.elapsed().as_secs() >= WATCHDOG_SECS {
+                let limit = if p.scenario.starts_with("corpus") { WATCHDOG_SECS_CORPUS } else { WATCHDOG_SECS };
+                if t.elapsed().as_secs() >= limit {
                     let v = Violation::new(
                         if p.scenario == "de" { "C07" } else { "C03" },
                         "non-termination",
-                        format!("a single simulated run did not finish within {} s of wall time", WATCHDOG_SECS),
+                        format!("a single simulated run did not finish within {} s of wall time", limit),
                     );
                     let path = write_replay(&replay_dir, &v, p, None);
                     if v.prop == prop {
                         println!("VIOLATION property={} replay={}", v.prop, path);
                         std::process::exit(1);
                     } else {
-                        eprintln!("HARNESS ERROR: run stuck for {} s in a check of {} (plan in {})", WATCHDOG_SECS, prop, path);
+                        eprintln!("HARNESS ERROR: run stuck for {} s in a check of {} (plan in {})", limit, prop, path);
                         std::process::exit(2);
                     }
                 }
@@ -215,8 +218,24 @@ pub fn replay(path: &str) -> i32 {
             return 2;
         }
     };
-    let prop = j["property"].as_str().unwrap_or("");
-    let kind = j["kind"].as_str().unwrap_or("");
+    let prop = j["property"].as_str().unwrap_or("").to_string();
+    let kind = j["kind"].as_str().unwrap_or("").to_string();
+    // a replayed hang must not hang the replay: same wall-clock guard as the search
+    {
+        let (prop, kind, path) = (prop.clone(), kind.clone(), path.to_string());
+        let limit = if plan.scenario.starts_with("corpus") { WATCHDOG_SECS_CORPUS } else { WATCHDOG_SECS };
+        std::thread::spawn(move || {
+            std::thread::sleep(std::time::Duration::from_secs(limit));
+            println!("  observed: the run did not finish within {} s of wall time", limit);
+            if kind == "non-termination" {
+                println!("VIOLATION property={} replay={}", prop, path);
+                std::process::exit(1);
+            }
+            println!("NOT REPRODUCED as recorded (kind={}), but the run hangs", kind);
+            std::process::exit(1);
+        });
+    }
+    let (prop, kind) = (prop.as_str(), kind.as_str());
     let mut st = Stats::default();
     let vs = exec_guarded(scen, &plan, &mut st);
     println!("replay of {}: scenario={} doc={:?}", path, plan.scenario, lossy(&plan.doc));
@@ -362,6 +381,28 @@ fn generic_candidates(p: &Plan) -> Vec<Plan> {
                 break;
             }
             size /= 2;
+        }
+    }
+    // --- a token (or element) together with as many leading Read ops: keeps the
+    //     later part of a call history aligned with the tokens it was aimed at ---
+    if !p.toks.is_empty() && !p.ops.is_empty() {
+        let base = out.len();
+        for qi in 0..base {
+            let removed = p.toks.len().saturating_sub(out[qi].toks.len());
+            if removed == 0 || removed > 8 {
+                continue;
+            }
+            let mut q = out[qi].clone();
+            let mut left = removed;
+            q.ops.retain(|o| {
+                if left > 0 && matches!(o, Op::Read | Op::ReadResolved) {
+                    left -= 1;
+                    false
+                } else {
+                    true
+                }
+            });
+            out.push(q);
         }
     }
     // --- caller script ---
